@@ -704,6 +704,8 @@ class Env:
             result = ret(it, ns)
         ns2 = dict(ns)
         ns2["result"] = result
+        if getattr(con, "yielded_sort", None) is not None:
+            ns2["yielded"] = result  # a generator used by contract: what it yields, as a list
         for k in list(ns):
             ns2[k + "__post"] = ns[k]
         for gk, gv in ctx.ghost.items():
@@ -795,6 +797,7 @@ class Env:
             for gk, gv in getattr(it, "ghost_old", {}).items():
                 ns.setdefault(gk + "__old", gv)
             ns["trace"] = ctx.trace
+            ns["ghost"] = ctx.ghost
             if getattr(it, "old_self", None) is not None:
                 ns["old"] = it.old_self
             return ns
@@ -860,7 +863,7 @@ class Env:
             if isinstance(cur, (SBytes, SSeq, SArr)):
                 cur.term = ctx.fresh("h_ghost_" + gk, cur.term.sort())
             elif cur is not None:
-                ctx.ghost[gk] = it.fresh(inv.vars["ghost." + gk], "h_ghost_" + gk)
+                ctx.ghost[gk] = it.fresh(inv.vars["ghost." + gk] or sort_of(cur), "h_ghost_" + gk)
         ghost_head = {k: (v.term if isinstance(v, (SBytes, SSeq, SArr)) else v) for k, v in ctx.ghost.items() if isinstance(k, str)}
         if ms.has_yield:
             y = ctx.ghost.get("yielded")
@@ -944,6 +947,9 @@ class Env:
             cur = gv.term if isinstance(gv, (SBytes, SSeq, SArr)) else gv
             if isinstance(gv, (SBytes, SSeq, SArr)):
                 if hv is None or not hv.eq(cur):
+                    raise Unsupported(f"loop {ordinal}: ghost {gk} changed but is not declared (vars['ghost.{gk}'])")
+            elif isinstance(gv, SV) or isinstance(hv, SV):
+                if not same_value(hv, gv):
                     raise Unsupported(f"loop {ordinal}: ghost {gk} changed but is not declared (vars['ghost.{gk}'])")
         for f in inv.inv:
             r = eval_clause(it, f, ns_now())
